@@ -731,7 +731,12 @@ func (sm *ServerManager) CleanupHlsIfNeeded(appName string, streamName string, p
 				sn := param[1].(string)
 				outPath := param[2].(string)
 
-				if g := sm.GetGroup(an, sn); g != nil {
+				// 判断和删除之间不能有新的pub进来（新pub的hls muxer会重新创建并使用这个目录），
+				// 所以整个过程持有sm.mutex，和pub的加入互斥
+				sm.mutex.Lock()
+				defer sm.mutex.Unlock()
+
+				if g := sm.getGroup(an, sn); g != nil {
 					if g.IsHlsMuxerAlive() {
 						Log.Warnf("cancel cleanup hls file path since hls muxer still alive. streamName=%s", sn)
 						return
